@@ -139,7 +139,8 @@ def run(prog, env, stack=None, max_steps=2000, max_paths=256, feas_ms=2000, alia
                         raise Halt("dynjump", w, None)
                     i = t
                 else:
-                    oog = Mx.mem_out_of_gas(name, args)
+                    # (no memory-gas halt here: the window contract compares two programs on the same machine, gas is not observable)
+                    oog = None
                     if oog is not None:
                         bad = w.assume(oog)
                         if feasible(bad.pc, feas_ms):
